@@ -202,23 +202,34 @@ def analyse_decorate(ctx, repo, prop_rules):
         ctx.decide(sym_ok, "R-TABLE/eflag-predicates", construct, where, "family predicates resolve to bromelia.utils",
                    "is_3xxx/4xxx/5xxx_failure do not resolve to bromelia.utils", key="resolve", nontrivial=False)
         n_rows = 0
+        from .. import sym as _se
+        from ..astutil import strip_doc as _sd
+        AT_, RT_ = _se.S(A), _se.S(R)
         for f3, f4, f5, ise in itertools.product((False, True), repeat=4):
-            vals = {fams[3]: f3, fams[4]: f4, fams[5]: f5, f"{A}.header.is_error()": ise}
-            used = set()
+            other_used = []
 
-            def atom(e, vals=vals, used=used):
-                t = ast.unparse(e)
-                if t in vals:
-                    used.add(t)
-                    return vals[t]
-                if isinstance(e, ast.Call) and isinstance(e.func, ast.Name) and e.func.id.startswith("is_") and "xxx" in e.func.id:
-                    used.add("other:" + t)
-                    return None
+            def hook(t, f3=f3, f4=f4, f5=f5, ise=ise, other_used=other_used):
+                if isinstance(t, tuple) and t and t[0] == "call" and t[2] == (AT_,) and isinstance(t[1], tuple) and t[1][0] == "name":
+                    nm = t[1][1]
+                    if nm == "is_3xxx_failure":
+                        return f3
+                    if nm == "is_4xxx_failure":
+                        return f4
+                    if nm == "is_5xxx_failure":
+                        return f5
+                if t == ("call", ("attr", ("attr", AT_, "header"), "is_error"), (), ()):
+                    return ise
                 return None
-            for p in enum_paths(fn.body, decide=lambda t, ev: eval_bool(t, atom), loops="skip"):
+            try:
+                ps_ = _se.Interp(hook=hook, log_calls=True).run(_sd(fn.body), _se.PathState({A: AT_, R: RT_}, [], []))
+            except _se.TooMany:
+                ctx.undecided("R-DOM/eflag", construct, where, "too many paths", key="paths")
+                break
+            for p_ in ps_:
                 n_rows += 1
-                sets = [c for c, _ in p.calls() if call_name(c) == f"{A}.header.set_error_bit"]
-                args = [c.args[0].value if c.args and isinstance(c.args[0], ast.Constant) else None for c in sets]
+                sets = [e[1][2] for e in p_.effects if e[0] == "ecall" and isinstance(e[1], tuple) and e[1][0] == "call"
+                        and e[1][1] == ("attr", ("attr", AT_, "header"), "set_error_bit")]
+                args = [a_[0] if a_ else None for a_ in sets]
                 want = (f3 or f4 or f5) and not ise
                 case = f"3xxx={f3},4xxx={f4},5xxx={f5},E_already={ise}"
                 if want:
@@ -241,13 +252,24 @@ def analyse_decorate(ctx, repo, prop_rules):
 
     if "rcremoval" in prop_rules:
         ctx.clause = "4-result-code-removal"
+        from .. import sym as _sr
+        from ..astutil import strip_doc as _sd2
+        AT2, RT2 = _sr.S(A), _sr.S(R)
         for er, rc in itertools.product((False, True), repeat=2):
-            vals = {f"{A}.has_avp('experimental_result_avp')": er, f"{A}.has_avp('result_code_avp')": rc}
-
-            def atom(e, vals=vals):
-                return vals.get(ast.unparse(e))
-            for p in enum_paths(fn.body, decide=lambda t, ev: eval_bool(t, atom), loops="skip"):
-                pops = [ast.unparse(c.args[0]) for c, _ in p.calls() if call_name(c) == f"{A}.pop" and c.args]
+            def hook(t, er=er, rc=rc):
+                if t == ("call", ("attr", AT2, "has_avp"), ("experimental_result_avp",), ()):
+                    return er
+                if t == ("call", ("attr", AT2, "has_avp"), ("result_code_avp",), ()):
+                    return rc
+                return None
+            try:
+                ps_ = _sr.Interp(hook=hook, log_calls=True).run(_sd2(fn.body), _sr.PathState({A: AT2, R: RT2}, [], []))
+            except _sr.TooMany:
+                ctx.undecided("R-DOM/rc-removal", construct, where, "too many paths", key="paths")
+                break
+            for p_ in ps_:
+                pops = [repr(e[1][2][0]) for e in p_.effects if e[0] == "ecall" and isinstance(e[1], tuple) and e[1][0] == "call"
+                        and e[1][1] == ("attr", AT2, "pop") and e[1][2]]
                 case = f"experimental_result={er},result_code={rc}"
                 want = ["'result_code_avp'"] if (er and rc) else []
                 ctx.decide(pops == want, "R-DOM/rc-removal", construct, where, f"{case}: ok",
